@@ -170,16 +170,40 @@ func (c *Ctx) pkcs7Rules(r *Report, prefix string) {
 		div = f.divisibleBy(total, bs)
 	}
 	r.Check(div, rule, "len(plaintext) + p is a multiple of 16", c.InstrPos(mk), "p = 16 - len % 16 (remainder identity)", "the padded length is not provably a multiple of the block size")
-	// rand.Read error checked
+	// rand.Read (or io.ReadFull(rand.Reader, ...), which is what rand.Read is) with its error checked
+	nSrc := 0
 	for _, b := range fn.Blocks {
 		for _, ins := range b.Instrs {
 			if call := staticCallTo(valueOf(ins), "crypto/rand.Read"); call != nil {
+				nSrc++
 				ok, why := c.errorChecked(call)
 				r.Check(ok, rule, "random-source failure is an error", c.InstrPos(call), why, why)
 				r.Check(call.Call.Args[0] == ssa.Value(mk), rule, "padding octets come from crypto/rand", c.InstrPos(call), "rand.Read(paddingText)", "the random octets are not read into the padding buffer")
 			}
+			if call := staticCallTo(valueOf(ins), "io.ReadFull"); call != nil && len(call.Call.Args) == 2 && isCryptoRandReader(call.Call.Args[0]) {
+				nSrc++
+				ok, why := c.errorChecked(call)
+				r.Check(ok, rule, "random-source failure is an error", c.InstrPos(call), why, why)
+				r.Check(call.Call.Args[1] == ssa.Value(mk), rule, "padding octets come from crypto/rand", c.InstrPos(call), "io.ReadFull(rand.Reader, paddingText)", "the random octets are not read into the padding buffer")
+			}
 		}
 	}
+	if nSrc == 0 {
+		r.bad(rule, "padding octets come from crypto/rand", c.Pos(fn.Pos()), "neither rand.Read nor io.ReadFull(rand.Reader, ...) fills the padding buffer")
+	}
+}
+
+// isCryptoRandReader: v is crypto/rand.Reader (loaded, possibly wrapped into an interface).
+func isCryptoRandReader(v ssa.Value) bool {
+	if mi, ok := v.(*ssa.MakeInterface); ok {
+		v = mi.X
+	}
+	u, ok := v.(*ssa.UnOp)
+	if !ok {
+		return false
+	}
+	g, ok := u.X.(*ssa.Global)
+	return ok && g.Pkg != nil && g.Pkg.Pkg.Path() == "crypto/rand" && g.Name() == "Reader"
 }
 
 // liveEdgeValue returns the unique incoming value of φ from a live predecessor, or v itself.
